@@ -289,6 +289,8 @@ def _copy_data_types(data_types: list[DataType]) -> list[DataType]:
         elif data_type_.data_types:  # pragma: no cover
             copied_data_type = data_type_.copy()
             copied_data_type.data_types = _copy_data_types(data_type_.data_types)
+            for child in copied_data_type.data_types:
+                child.parent = copied_data_type
             copied_data_types.append(copied_data_type)
         else:
             copied_data_types.append(data_type_.copy())
